@@ -18,6 +18,8 @@ SPECS = {
     "centring": ("gen_centring", ["matid/symmetry/symmetryanalyzer.py"], ["MatidGen/Centring.lean"]),
     "wyckoff_rule": ("gen_wyckoff_rule", ["matid/symmetry/symmetryanalyzer.py"], ["MatidGen/WyckoffRule.lean"]),
     "cluster_rule": ("gen_cluster_rule", ["matid/clustering/cluster.py"], ["MatidGen/ClusterRule.lean"]),
+    "analyzer_rule": ("gen_analyzer_rule", ["matid/symmetry/symmetryanalyzer.py"], ["MatidGen/AnalyzerRule.lean"]),
+    "sbc_rule": ("gen_sbc_rule", ["matid/clustering/sbc.py", "matid/core/periodicfinder.py"], ["MatidGen/SbcRule.lean"]),
     "dim_rule": ("gen_dim_rule", ["matid/geometry/geometry.py"], ["MatidGen/DimRule.lean"]),
 }
 
